@@ -50,6 +50,10 @@ def unit_rac(eng):
         ("x = e\ny = s + 2\n.link 2000 - x + y\nnop\ns: nop\nnop\ne: nop\n", 0o1776),
         # the directive at offset 0 behind a label at offset 0 (the label's address is the bare base promise)
         ("start: .link 2000 + end - start\n.word 1\nend: .word 2\n", 0o2002), ("start: . = 2000 + 2*<end - start>\n.word 1\nend: .word 2\n", 0o2004),
+        # labels in other files, directly and through aliases (D50), aliases of aliases, the directive in the second file
+        ((".link 2000 + e - s\ns: .word 1\n", ".word 2\ne::\n"), 0o2004), ((".link 2000 + x - s\ns: .word 1\nx = e\n", ".word 2\ne::\n"), 0o2004),
+        ((".link 2000 + x - s\ns: .word 1\nx = y\ny = e\n", ".word 2\ne::\n"), 0o2004), (("x = e\n.link 2000 + x - s\ns: .word 1\n", ".word 2\ne::\n"), 0o2004),
+        (("s:: .word 1\n", ".word 2\n", "x = e\n.link 3000 + 2*x - 2*s\n.word 3\ne:\n"), 0o3014), (("x == e\ns: nop\n", "nop\n.link 1000 + x - t\nt:: nop\n", "nop\ne::\n"), 0o1004),
     ]
     bad_progs = [".link 1000\nnop\n.link 1000\n", ".link 1000+e-.\nnop\n.link 1000+e-.\ne: nop\n", "x = e\n.link 1000 + x + s\nnop\ns: nop\ne: nop\n", "x = e\n.link x\nnop\ne: nop\n", ".link a\na: nop\n", ".link 100\n.link 200\nnop\n", ".link s + 2\ns: nop\n", ".link 1000\n.blkb 10\n. = 1004\nnop\n"]
     # a '. =' skip between the labels of a cancelling link expression (finding D39: reported as recursive-definition)
@@ -57,7 +61,7 @@ def unit_rac(eng):
     d39_active = "D39" in common.ACTIVE_FINDINGS
     if not d39_active:
         progs += D39_PROGS
-    jobs = [{"kind": "asm", "sources": [p]} for p, _ in progs] + [{"kind": "asm", "sources": [p]} for p in bad_progs]
+    jobs = [{"kind": "asm", "sources": [p] if isinstance(p, str) else list(p)} for p, _ in progs] + [{"kind": "asm", "sources": [p]} for p in bad_progs]
     res = driver.native(jobs, driver.tree_root())
     bad = []
     for (p, base), r in zip(progs, res):
